@@ -758,6 +758,10 @@ func (pe *PolicyEngine) addRepresentativePod(podNs string, objSelectors *k8s.Sin
 		return errors.New(netpolerrors.NilNamespaceAndNilNsSelectorErr)
 	}
 	if nsLabelSelector == nil && podNs != "" {
+		// the policy's namespace may have neither a Namespace resource nor workloads in the input resources
+		if err := pe.resolveSingleMissingNamespace(podNs); err != nil {
+			return err
+		}
 		// if the objSelectors.NsSelector is nil, means inferred from a rule with nil nsSelector, which means the namespace of the
 		// pod is the namespace of the policy, so adding it as its RepresentativeNsLabelSelector requirement.
 		// by this, we ensure a representative peer may only represent the rule it was inferred from
